@@ -128,7 +128,7 @@ def generate(seed, tier, cfg):
     st = R.Streams(seed)
     k = st.knobs
     profile = k.choice(("full", "unfold", "full", "plain"))
-    asc = gen.gen_score(st.workload, profile=profile)
+    asc = gen.gen_score(st.workload, profile=profile, size=gen.pick_size(tier, st.knobs))
     nparts = len(asc["parts"])
     has_perf = k.random() < 0.5
     nclients = k.choice((2, 2, 3, 4))
